@@ -311,7 +311,12 @@ Fixpoint eval (ps : list (str * Q)) (db : udb) (t : tree) : ures qv :=
   | TInt v | TFloat v => UOk (Num v)
   | TMul a b => ubind (eval ps db a) (fun x => ubind (eval ps db b) (fun y => UOk (q_mul x y)))
   | TDiv a b => ubind (eval ps db a) (fun x => ubind (eval ps db b) (fun y => q_div x y))
-  | TPow a e => ubind (eval ps db a) (fun x => ubind (eval ps db e) (fun y => q_pow x y))
+  | TPow a e => ubind (eval ps db a) (fun x => ubind (eval ps db e) (fun y =>
+      (* eval_subtree: a negative magnitude has no real fractional power *)
+      match y with
+      | Num ev => if negb (Qle_bool 0 (qval x)) && negb (is_int ev) then URaise UnitsParse else q_pow x y
+      | _ => q_pow x y
+      end))
   end.
 
 Definition eval_text (ps : list (str * Q)) (db : udb) (text : str) : ures qv :=
